@@ -24,8 +24,14 @@ import c06_translate as tr
 LEVEL = 'proof'
 
 HEADER = '''From Coq Require Import QArith List ZArith.
-Require Import Kawin.Common.Ops Kawin.Common.Out Kawin.C06.Model.
+Require Import Kawin.Common.Ops Kawin.Common.Out Kawin.C06.Model Kawin.C06.SpecCorr.
 Require Import KawinRun.Iterators_gen KawinRun.Corr.
+Import ListNotations.
+Open Scope Q_scope.
+'''
+# the last good model only (static): available when the source is outside the translated subset
+HEADER_SPEC = '''From Coq Require Import QArith List ZArith.
+Require Import Kawin.Common.Ops Kawin.Common.Out Kawin.C06.Model Kawin.C06.SpecCorr.
 Import ListNotations.
 Open Scope Q_scope.
 '''
@@ -120,7 +126,20 @@ def make_system(name, p):
         aut = False
     else:
         raise ValueError(name)
-    return {'name': name, 'f': f, 'exact': ex, 't0': t0, 'y0': y0, 'autonomous': aut, 'dim': len(y0), 'span': p['span']}
+    sysd = {'name': name, 'f': f, 'exact': ex, 't0': t0, 'y0': y0, 'autonomous': aut, 'dim': len(y0), 'span': p['span']}
+    return rescale_time(sysd, p.get('tau', 1.0))
+
+
+def rescale_time(sysd, tau):
+    """the same problem in another unit of time: s = tau * t, dy/ds = f(s / tau, y) / tau.  Accuracy in the
+    step size cannot depend on the unit (the solver's step bounds are fractions of the simulated span)"""
+    if tau == 1.0:
+        return sysd
+    f, ex = sysd['f'], sysd['exact']
+    d = dict(sysd)
+    d.update(f=lambda s, y: np.asarray(f(s / tau, y), dtype=float) / tau, exact=lambda s: ex(s / tau),
+             t0=sysd['t0'] * tau, span=sysd['span'] * tau, tau=tau)
+    return d
 
 
 SYSTEMS = ['linear', 'logistic', 'rotation', 'cos', 'cubic', 'gauss', 'riccati', 'linforced', 'trot', 'forcedosc']
@@ -212,20 +231,23 @@ def make_model(sysd, h, log=None):
     return M()
 
 
-def integrate_solver(which, sysd, N, frac=0.0):
+def integrate_solver(which, sysd, N, frac=0.0, minfrac=None):
     """through GenericModel.solve with the proposed step span / (N + frac): for frac > 0 the step does
-    not divide the interval, the solver takes N proposed steps and shortens the last one to end at tf"""
+    not divide the interval, the solver takes N proposed steps and shortens the last one to end at tf.
+    minfrac: minDtFrac (None = the default of GenericModel.solve)"""
     m = make_model(sysd, sysd['span'] / (N + frac))
-    m.solve(sysd['span'], solverType=solver_type(which), minDtFrac=1e-12, maxDtFrac=1)
+    kw = {} if minfrac is None else {'minDtFrac': minfrac}
+    m.solve(sysd['span'], solverType=solver_type(which), maxDtFrac=1, **kw)
     return m.t, m.traj, m.steps
 
 
-def integrate_desolver(which, sysd, N, frac=0.0):
+def integrate_desolver(which, sysd, N, frac=0.0, minfrac=None):
     """the same through a bare DESolver (flat state, identity flatten functions)"""
     _, So, _ = impl()
     f = sysd['f']
     h = sysd['span'] / (N + frac)
-    s = So.DESolver(solver_type(which), minDtFrac=1e-12, maxDtFrac=1)
+    kw = {} if minfrac is None else {'minDtFrac': minfrac}
+    s = So.DESolver(solver_type(which), maxDtFrac=1, **kw)
     s.setdXdtFunctions(lambda t, x: np.asarray(f(t, x), dtype=float), s.correctdXdtNotImplemented, lambda d: h,
                        s.flattenXNotImplemented, s.unflattenXNotImplemented)
     traj = []
@@ -440,23 +462,26 @@ ORDER_N = {'Euler': [64, 128, 256, 512], 'RK4': [16, 32, 64, 128]}
 FLOOR = 1e-11
 
 
-def order_estimate(which, path, name, p, Ns=None, frac=0.0):
-    """frac > 0 (solver paths only): proposed step span / (N + frac), which does not divide the interval;
-    the run must still end exactly at tf, after N proposed steps and one shortened step"""
+def order_estimate(which, path, name, p, Ns=None, frac=0.0, minfrac=None):
+    """frac > 0 (solver paths only): proposed step span / (N + frac), which does not divide the interval.
+    Every proposed step lies within the solver's bounds [minDtFrac, maxDtFrac] * span, so the error is a
+    function of the PROPOSED step size; how many steps the solver actually took is reported, not judged
+    (a run that does not end at tf is the time contract's subject and is skipped)."""
     sysd = make_system(name, p)
     Ns = Ns or ORDER_N[which]
     integ = {'direct': integrate_direct, 'solver': integrate_solver, 'desolver': integrate_desolver}[path]
     errs = []
     errs_tf = []
+    taken = []
     tf = sysd['t0'] + sysd['span']
     for N in Ns:
         if path == 'direct':
             t_end, traj, steps = integ(which, sysd, N)
         else:
-            t_end, traj, steps = integ(which, sysd, N, frac)
-        want = N + (1 if frac > 0 else 0)
-        if steps != want or abs(t_end - tf) > 1e-9:
-            return {'indeterminate': 'step count %d (expected %d) for N=%d, frac=%r (end time %r)' % (steps, want, N, frac, t_end)}
+            t_end, traj, steps = integ(which, sysd, N, frac, minfrac)
+        taken.append(steps)
+        if not traj or abs(t_end - tf) > 1e-9 * max(abs(tf), abs(sysd['span'])):
+            return {'indeterminate': 'run with N=%d, frac=%r ended at %r, not at tf=%r' % (N, frac, t_end, tf)}
         if not all(np.all(np.isfinite(y)) for _, y in traj):
             return {'nonfinite': True, 'errs': errs}
         # global error in the maximum norm over the whole trajectory (a single time point can sit on a
@@ -468,7 +493,7 @@ def order_estimate(which, path, name, p, Ns=None, frac=0.0):
         errs.append(e)
         ex = sysd['exact'](traj[-1][0])
         errs_tf.append(float(np.max(np.abs(traj[-1][1] - ex)) / (1 + np.max(np.abs(ex)))))
-    res = {'errs': errs, 'errs_tf': errs_tf, 'Ns': list(Ns), 'frac': frac}
+    res = {'errs': errs, 'errs_tf': errs_tf, 'Ns': list(Ns), 'frac': frac, 'taken': taken, 'span': sysd['span']}
     # only step sizes whose error is clear of round-off enter the estimate; three are needed
     k = len(errs)
     while k > 0 and errs[k - 1] < FLOOR:
@@ -489,7 +514,10 @@ def order_oracle(which, path, name, p, res):
     sysd_aut = make_system(name, p)['autonomous']
     cls = 'autonomous' if sysd_aut else 'non-autonomous'
     frac = res.get('frac', 0.0)
-    if frac > 0:
+    tau = p.get('tau', 1.0)
+    if tau != 1.0:
+        cls += ', time unit scaled'
+    elif frac > 0:
         cls += ', step size does not divide the interval'
     if 'indeterminate' in res or res.get('floor'):
         return []
@@ -499,6 +527,8 @@ def order_oracle(which, path, name, p, res):
     if res['slope'] < nom - 0.75 or res['last'] < nom - 0.75:
         how = ('N=%s steps' % res['Ns']) if frac == 0 else \
               ('proposed step span/(N+%g), N=%s, last step shortened by the solver to end at tf' % (frac, res['Ns']))
+        if path != 'direct':
+            how += ' (simulated span %r; the solver took %s steps)' % (res.get('span'), res.get('taken'))
         return [('empirical_order', cls,
                  '%s (%s) on %s system %s: trajectory-maximum errors %s (errors at tf %s) for %s; observed order %.2f (last refinement %.2f), nominal %d'
                  % (site, path, cls.split(',')[0], name, ['%.3g' % e for e in res['errs']], ['%.3g' % e for e in res['errs_tf']], how,
@@ -550,9 +580,18 @@ def gen_exact_run(rng, which, path):
     for k in range(deg + 1, 4):
         a[k] = 0.0
     dy = lambda lo, hi: float(rng.integers(int(lo * 16), int(hi * 16) + 1)) / 16.0
-    return {'kind': 'exact_run', 'iterator': which, 'path': path, 't0': dy(-1, 1), 'span': float(rng.choice([1.0, 2.0])),
-            'y0': [float(rng.uniform(-1, 1))], 'a': a, 'N': int(rng.integers(1, 9)),
-            'frac': float(rng.choice([0.5, 0.9, 0.25, float(rng.uniform(0.05, 0.95))]))}
+    c = {'kind': 'exact_run', 'iterator': which, 'path': path, 't0': dy(-1, 1), 'span': float(rng.choice([1.0, 2.0])),
+         'y0': [float(rng.uniform(-1, 1))], 'a': a}
+    cls = str(rng.choice(['cut', 'cut', 'crossed', 'ulp']))
+    if cls == 'cut':            # the last step is shortened by the solver
+        c.update(N=int(rng.integers(1, 9)), frac=float(rng.choice([0.5, 0.9, 0.25, float(rng.uniform(0.05, 0.95))])))
+    elif cls == 'crossed':      # the time left for the last step is shorter than the minimum step
+        c.update(N=int(rng.integers(4, 13)), frac=float(rng.uniform(0.02, 0.2)), minfrac=0.05)
+    else:                       # the steps add up to tf only within rounding: a last step of a few ulp may be needed
+        c.update(N=int(rng.choice([3, 5, 6, 7, 10, 12, 80, 160])), frac=0.0, span=float(rng.choice([1.0, 0.7, 3.0])))
+    if rng.random() < 0.3:      # another unit of time
+        c['tau'] = float(rng.choice([1e-6, 1e-3, 1e3]))
+    return c
 
 
 def run_exact_run(c):
@@ -561,12 +600,14 @@ def run_exact_run(c):
     y0 = np.array(c['y0'], dtype=float)
     sysd = {'name': 'cubic', 'f': lambda t, y: (a[0] + a[1] * t + a[2] * t * t + a[3] * t ** 3) * np.ones_like(np.asarray(y, dtype=float)),
             'exact': lambda t: y0 + (P(t) - P(c['t0'])), 't0': c['t0'], 'y0': y0, 'dim': 1, 'span': c['span'], 'autonomous': False}
+    sysd = rescale_time(sysd, c.get('tau', 1.0))
     integ = integrate_solver if c['path'] == 'solver' else integrate_desolver
-    out = {'err': None}
+    out = {'err': None, 'tf': sysd['t0'] + sysd['span'], 'h': sysd['span'] / (c['N'] + c['frac'])}
     try:
-        t_end, traj, steps = integ(c['iterator'], sysd, c['N'], c['frac'])
-        out.update(t_end=t_end, steps=steps, y=traj[-1][1] if traj else y0, exact=sysd['exact'](c['t0'] + c['span']),
-                   sizes=[float(traj[0][0] - c['t0'])] + [float(traj[i][0] - traj[i - 1][0]) for i in range(1, len(traj))] if traj else [])
+        t_end, traj, steps = integ(c['iterator'], sysd, c['N'], c['frac'], c.get('minfrac'))
+        t0s = sysd['t0']
+        out.update(t_end=t_end, steps=steps, y=traj[-1][1] if traj else y0, exact=sysd['exact'](sysd['t0'] + sysd['span']),
+                   sizes=[float(traj[0][0] - t0s)] + [float(traj[i][0] - traj[i - 1][0]) for i in range(1, len(traj))] if traj else [])
     except Exception as e:
         out['err'] = type(e).__name__ + ': ' + str(e)
     return out
@@ -577,16 +618,24 @@ def exact_run_oracle(c, im):
     site = 'RK4Iterator' if which == 'RK4' else 'ExplicitEulerIterator'
     if im['err']:
         return [('no_internal_error', 'exception', '%s through the solver raised %s' % (site, im['err']))]
-    tf = c['t0'] + c['span']
-    if im['steps'] != c['N'] + 1 or abs(im['t_end'] - tf) > 1e-9:
-        return []          # how many steps the solver takes and where it stops is C05's subject
+    tf = im['tf']
+    if abs(im['t_end'] - tf) > 1e-9 * max(abs(tf), abs(im['h'])):
+        return []          # where the solver stops is the time contract's subject
     ex = im['exact']
     if np.max(np.abs(im['y'] - ex)) > 1e-12 * (1 + np.max(np.abs(ex))):
         deg = 3 if which == 'RK4' else 0
-        return [('exact_quadrature_run', 'last step shortened by the solver',
-                 "%s through %s on y' = polynomial of degree %d in t from (t0=%r, y0=%r) to tf=%r with proposed step %r (%d proposed steps + a last step of %r): state at tf %r, exact %r - every sequence of steps of a method of order %d reproduces it"
-                 % (site, 'GenericModel.solve' if c['path'] == 'solver' else 'DESolver.solve', deg, c['t0'], c['y0'][0], tf, c['span'] / (c['N'] + c['frac']),
-                    c['N'], im['sizes'][-1] if im['sizes'] else None, [float(v) for v in im['y']], [float(v) for v in ex], NOMINAL[which]))]
+        last = im['sizes'][-1] if im['sizes'] else None
+        left = tf - (im['t_end'] - last) if last is not None else None
+        cls = 'last step shortened by the solver'
+        if c.get('minfrac') is not None and c['frac'] > 0 and c['frac'] / (c['N'] + c['frac']) < c['minfrac']:
+            cls = 'time left for the last step below the minimum step'
+        elif c['frac'] == 0:
+            cls = 'steps add up to tf within rounding'
+        return [('exact_quadrature_run', cls,
+                 "%s through %s on y' = polynomial of degree %d in t (time unit %g) from (t0=%r, y0=%r) to tf=%r with proposed step %r%s, %d steps taken, the last one over %r: state at tf %r, exact %r - every sequence of steps of a method of order %d, of whatever sizes, reproduces it"
+                 % (site, 'GenericModel.solve' if c['path'] == 'solver' else 'DESolver.solve', deg, c.get('tau', 1.0), tf - c['span'] * c.get('tau', 1.0), c['y0'][0], tf, im['h'],
+                    '' if c.get('minfrac') is None else ' and minDtFrac=%r' % c['minfrac'], im['steps'], left,
+                    [float(v) for v in im['y']], [float(v) for v in ex], NOMINAL[which]))]
     return []
 
 
@@ -602,14 +651,22 @@ def gen_corr_case(rng, idx):
         y = [dy(-2, 2) for _ in range(n)]
         t, h0 = dy(-2, 2), float(rng.choice([0.5, 0.25, 1.0]))
     else:
-        P = [[float(v) for v in rng.uniform(-1.5, 1.5, 6)] for _ in range(n)]
-        y = [float(v) for v in rng.uniform(-1.5, 1.5, n)]
-        t, h0 = float(rng.uniform(-2, 2)), float(10 ** rng.uniform(-2.5, 0))
+        # 20 fractional bits: exact rational arithmetic on four nested polynomial stages stays cheap
+        q20 = lambda v: float(np.round(float(v) * 2 ** 20) / 2 ** 20)
+        P = [[q20(v) for v in rng.uniform(-1.5, 1.5, 6)] for _ in range(n)]
+        y = [q20(v) for v in rng.uniform(-1.5, 1.5, n)]
+        t, h0 = q20(rng.uniform(-2, 2)), q20(10 ** rng.uniform(-2.5, 0))
     c = {'kind': 'corr', 'which': which, 'n': n, 'P': P, 'y': y, 't': t, 'h0': h0, 'exact': exact,
          'h1': float(rng.choice([0.0, 0.125, 0.5])),
          'dtmin': float(rng.choice([1e-6, 0.05, 0.3])), 'dtmax': float(rng.choice([10.0, 0.4, 0.1]))}
     if c['dtmin'] > c['dtmax']:
         c['dtmin'], c['dtmax'] = 0.05, 0.4
+    # the remaining time can be shorter than the minimum step: the bounds in force then cross
+    if which >= 2 and rng.random() < 0.25:
+        c['dtmax'] = c['dtmin'] * float(rng.choice([0.5, 0.125, 0.9]))
+    # the constructor's fractions of the span (attributes dtmin / dtmax) are other numbers than the bounds in force
+    c['fmin'] = float(rng.choice([1e-8, 1e-3, 0.25]))
+    c['fmax'] = float(rng.choice([1.0, 0.5, 0.01]))
     return c
 
 
@@ -646,6 +703,7 @@ def run_corr_impl(c):
             corr = s.correctdXdtNotImplemented       # models that do not correct derivatives
             getdt = lambda dXdt: c['h0'] + c['h1'] * float(np.hstack(dXdt)[0]) ** 2
             s.setdXdtFunctions(fl, corr, getdt, lambda X: GenericModel.flattenX(gm, X), lambda Xf, Xr: GenericModel.unflattenX(gm, Xf, Xr))
+            s.dtmin, s.dtmax = c['fmin'], c['fmax']
             s._dtmin, s._dtmax = c['dtmin'], c['dtmax']
             s._X0 = X0
             xn, dt = s.iterator(s._getdXdt, c['t'], s._flattenX(X0), s._updateX)
@@ -655,11 +713,58 @@ def run_corr_impl(c):
     return out
 
 
-def corr_term(c, im):
+def corr_term(c, im, both):
     rt = '(1 # 1125899906842624)' if (c['exact'] and c['which'] in (0, 2)) else '(1 # 68719476736)'
-    return 'check06 %s %s %s %s %s %s %s %s %s %s %s' % (
+    if both:
+        return 'check06both %s %s %s %s %s %s %s %s %s %s %s %s %s' % (
+            natlit(c['which']), rt, qlistlist(c['P']), qlit(c['h0']), qlit(c['h1']), qlit(c.get('fmin', 1e-8)), qlit(c.get('fmax', 1.0)),
+            qlit(c['dtmin']), qlit(c['dtmax']), qlit(c['t']), qlist(c['y']), qlist(im['new']), qlit(im['dt']))
+    return 'check06s %s %s %s %s %s %s %s %s %s %s %s' % (
         natlit(c['which']), rt, qlistlist(c['P']), qlit(c['h0']), qlit(c['h1']), qlit(c['dtmin']), qlit(c['dtmax']),
         qlit(c['t']), qlist(c['y']), qlist(im['new']), qlit(im['dt']))
+
+
+WHICH = ['ExplicitEulerIterator', 'RK4Iterator', 'ExplicitEulerIterator through DESolver._getdXdt/_updateX', 'RK4Iterator through DESolver._getdXdt/_updateX']
+
+
+def describe_corr(c, im, r, what):
+    """message for a disagreement r = ((verdict, dt_ok), tie) between the implementation and a model"""
+    (verdict, dt_ok), tie = r
+    if tie:
+        return None
+    head = '%s, t=%r, state %r' % (WHICH[c['which']], c['t'], c['y'])
+    if c['which'] >= 2:
+        head += ', model proposes dt=h0+h1*d0^2 with h0=%r h1=%r, bounds in force _dtmin=%r _dtmax=%r (attributes dtmin=%r dtmax=%r)' % (
+            c['h0'], c['h1'], c['dtmin'], c['dtmax'], c.get('fmin'), c.get('fmax'))
+    else:
+        head += ', dt=%r' % c['h0']
+    if not dt_ok:
+        return ('step_size', '%s: the implementation takes the step %r, %s takes another one' % (head, im['dt'], what))
+    if verdict is not None:
+        k, ap = verdict[1]
+        return ('state', '%s: component %d of the new state is %r, %s gives %r' % (
+            head, k, im['new'][k] if k < len(im['new']) else None, what, float(tofrac(ap))))
+    return None
+
+
+def eval_corr(ctx, cases, impls, both, name='corr', quick=True):
+    ok_idx = [i for i, im in enumerate(impls) if im['err'] is None and all(math.isfinite(v) for v in im['new'])]
+    res = ctx.coq_eval(name, HEADER if both else HEADER_SPEC, [corr_term(cases[i], impls[i], both) for i in ok_idx],
+                       shard=max(4, -(-len(ok_idx) // (8 if quick else 16))))
+    return ok_idx, res
+
+
+def corr_case_oracle(ctx, c):
+    """one correspondence case against the last good model (used by replay and by the shrinker)"""
+    im = run_corr_impl(c)
+    if im['err']:
+        return [('no_internal_error', 'exception', '%s raised %s' % (WHICH[c['which']], im['err']))]
+    ok_idx, res = eval_corr(ctx, [c], [im], False, name='corr_replay_%d' % ctx._replay_k)
+    if not ok_idx:
+        return [('solver_step', 'non-finite', 'non-finite result')]
+    r = res[0]
+    d = describe_corr(c, im, ((r[0], r[1]), r[2]), 'the last good model (coq/C06/Model.v: spec_clamp, spec_euler_step, spec_rk4_step)')
+    return [('solver_step', 'step size clamp' if d[0] == 'step_size' else 'new state', d[1])] if d else []
 
 
 # ==========================================================================================
@@ -705,7 +810,7 @@ def evaluate_case(c):
         im, exp = run_exact(c)
         return exact_oracle(c, im, exp)
     if k == 'order':
-        res = order_estimate(c['iterator'], c['path'], c['system'], c['params'], frac=c.get('frac', 0.0))
+        res = order_estimate(c['iterator'], c['path'], c['system'], c['params'], frac=c.get('frac', 0.0), minfrac=c.get('minfrac'))
         return order_oracle(c['iterator'], c['path'], c['system'], c['params'], res)
     if k == 'exact_run':
         return exact_run_oracle(c, run_exact_run(c))
@@ -758,14 +863,16 @@ def _shrinks(c):
         d.update(t=0.0, dt=1.0)
         yield d
     if c['kind'] == 'exact_run':
+        simple = [0.0, 1.0, 0.0, 0.0] if c['iterator'] == 'RK4' else [1.0, 0.0, 0.0, 0.0]
         d = dict(c)
-        d.update(t0=0.0, span=1.0, y0=[0.0], N=1, frac=0.5, a=[0.0, 1.0, 0.0, 0.0] if c['iterator'] == 'RK4' else [1.0, 0.0, 0.0, 0.0])
+        d.update(t0=0.0, span=1.0, y0=[0.0], N=1, frac=0.5, a=simple)
         yield d
         d = dict(c)
-        d.update(t0=0.0, span=1.0, y0=[0.0], N=1, frac=0.5)
+        d.update(t0=0.0, span=1.0, y0=[0.0], a=simple)
+        d.pop('tau', None)
         yield d
         d = dict(c)
-        d.update(N=1, frac=0.5)
+        d.update(t0=0.0, y0=[0.0], a=simple)
         yield d
 
 
@@ -793,6 +900,12 @@ def search(ctx, quick, budget=1.0):
                         c['frac'] = [0.0, 0.5, float(rng.uniform(0.05, 0.95))][j % 3]
                         if rng.random() < 0.5:
                             c['path'] = 'desolver'
+                    if path == 'solver':
+                        # the default minimum step fraction unless stated; sometimes another unit of time
+                        if rng.random() < 0.3:
+                            c['minfrac'] = 1e-12
+                        if rng.random() < 0.4:
+                            c['params']['tau'] = float(rng.choice([1e-8, 1e-6, 1e-3, 1e3, 1e6]))
                     cases.append(c)
     for c in cases:
         try:
@@ -805,6 +918,7 @@ def search(ctx, quick, budget=1.0):
         if c['kind'] == 'order':
             ctx.hist('system', c['system'])
             ctx.hist('order_step_size', 'divides the interval' if c.get('frac', 0.0) == 0 else 'does not divide (last step cut)')
+            ctx.hist('time_unit', c['params'].get('tau', 1.0))
         for h in hs:
             hits.append((c, *h))
     return hits, len(cases)
@@ -813,9 +927,20 @@ def search(ctx, quick, budget=1.0):
 def report_hits(ctx, hits):
     seen = set()
     for (c, clause, cls, msg) in hits:
-        key = (clause, cls, c['iterator'], c.get('path', 'direct') if clause == 'state_unchanged' else '')
+        if c['kind'] == 'corr':
+            site = ('kawin/solver/Iterators.py:' + WHICH[c['which']]) if c['which'] < 2 else \
+                   'kawin/solver/Solver.py:DESolver._getdXdt/_updateX (%s)' % ('Euler' if c['which'] == 2 else 'RK4')
+            if (clause, cls, site) in seen:
+                continue
+            seen.add((clause, cls, site))
+            ctx.violation(clause, {'site': site, 'cls': cls},
+                          {'kind': 'input', 'input': hexcase(c), 'decimal': c, 'observed': msg,
+                           'oracle': 'the last good model of one solver step (coq/C06/Model.v spec_clamp / spec_euler_step / spec_rk4_step), executed on exact rationals inside Coq on the same input'},
+                          msg)
+            continue
         site = 'kawin/solver/Iterators.py:' + ('RK4Iterator' if c['iterator'] == 'RK4' else 'ExplicitEulerIterator')
-        if c['kind'] == 'exact_run' or (c['kind'] == 'order' and c.get('frac', 0.0) > 0):
+        if c['kind'] == 'exact_run' or (c['kind'] == 'order' and c.get('path', 'direct') != 'direct'
+                                        and (c.get('frac', 0.0) > 0 or c['params'].get('tau', 1.0) != 1.0)):
             site = 'kawin/solver/Solver.py:DESolver.solve (%s)' % c['iterator']
         if (clause, cls, site) in seen:
             continue
@@ -861,41 +986,51 @@ def dynamic_identity_check():
     return probs
 
 
-def correspondence(ctx, quick):
-    """generated text on exact rationals vs the Python functions; returns list of disagreements"""
-    for fn in ('Corr.v',):
-        shutil.copy(os.path.join(COQ, 'C06', 'run', fn), os.path.join(ctx.build, fn))
-        ok, out = ctx.coqc(os.path.join(ctx.build, fn))
+def correspondence(ctx, quick, tie_ok):
+    """the implementation against (a) the generated text [translator validation, when there is one] and
+    (b) the last good model, both executed on exact rationals inside Coq.
+    returns (disagreements with the generated text, hits against the last good model)"""
+    if tie_ok:
+        shutil.copy(os.path.join(COQ, 'C06', 'run', 'Corr.v'), os.path.join(ctx.build, 'Corr.v'))
+        ok, out = ctx.coqc(os.path.join(ctx.build, 'Corr.v'))
         if not ok:
-            return [('corr-build', None, 'coq/C06/run/Corr.v does not compile against the generated text: ' + out[-400:])]
+            return [('corr-build', None, 'coq/C06/run/Corr.v does not compile against the generated text: ' + out[-400:])], []
     n = 120 if quick else 2000
     cases = [gen_corr_case(ctx.rng, i) for i in range(n)]
     impls = [run_corr_impl(c) for c in cases]
-    ok_idx = [i for i, im in enumerate(impls) if im['err'] is None and all(math.isfinite(v) for v in im['new'])]
-    res = ctx.coq_eval('corr', HEADER, [corr_term(cases[i], impls[i]) for i in ok_idx], shard=max(4, -(-len(ok_idx) // (8 if quick else 16))))
-    dis = []
+    ok_idx, res = eval_corr(ctx, cases, impls, tie_ok, quick=quick)
+    dis, hits = [], []
     for i, r in zip(ok_idx, res):
-        verdict, dt_ok, tie = r
         c = cases[i]
         ctx.count(hexcase(c), True)
         ctx.hist('corr_which', ['Euler', 'RK4', 'Euler via solver', 'RK4 via solver'][c['which']])
-        if tie:
+        if c['which'] >= 2:
+            ctx.hist('corr_bounds', 'crossed (remaining time < minimum step)' if c['dtmax'] < c['dtmin'] else 'ordered')
+        # Coq prints ((a, b), c) as (a, b, c): one opinion is (verdict, dt_ok, tie), two are (v, d, t, (v', d', t'))
+        if tie_ok:
+            rg, rs = ((r[0], r[1]), r[2]), ((r[3][0], r[3][1]), r[3][2])
+        else:
+            rg, rs = None, ((r[0], r[1]), r[2])
+        if rs[1]:
             ctx.notes['indeterminate_near_tie'] = ctx.notes.get('indeterminate_near_tie', 0) + 1
             continue
-        if verdict is not None:
-            k, ap = verdict[1]
-            dis.append(('state', c, 'component %d: implementation %r, generated model %r' % (k, impls[i]['new'][k] if k < len(impls[i]['new']) else None, float(tofrac(ap)))))
-        elif not dt_ok:
-            dis.append(('dt', c, 'step: implementation %r differs from the generated model' % impls[i]['dt']))
+        if rg is not None:
+            d = describe_corr(c, impls[i], rg, 'the text generated from the current source')
+            if d:
+                dis.append((d[0], c, d[1]))
+        d = describe_corr(c, impls[i], rs, 'the last good model (coq/C06/Model.v: spec_clamp, spec_euler_step, spec_rk4_step)')
+        if d:
+            hits.append((c, 'solver_step', 'step size clamp' if d[0] == 'step_size' else 'new state', d[1]))
     for i, im in enumerate(impls):
         if i not in ok_idx:
-            dis.append(('error', cases[i], 'implementation raised %s' % im['err'] if im['err'] else 'non-finite result'))
+            hits.append((cases[i], 'no_internal_error', 'exception', '%s raised %s' % (WHICH[cases[i]['which']], im['err']) if im['err'] else 'non-finite result'))
     ctx.cov['traces_validated_against_impl'] = len(ok_idx)
-    return dis
+    return dis, hits
 
 
 RUN_FILES = ['C06/run/BridgeA.v', 'C06/run/GenPropertiesA.v', 'C06/run/BridgeAut.v', 'C06/run/GenPropertiesAut.v',
-             'C06/run/BridgeB.v', 'C06/run/GenPropertiesB.v', 'C06/run/BridgeC.v', 'C06/run/GenPropertiesC.v']
+             'C06/run/BridgeB.v', 'C06/run/GenPropertiesB.v', 'C06/run/BridgeS.v', 'C06/run/GenPropertiesS.v',
+             'C06/run/BridgeC.v', 'C06/run/GenPropertiesC.v']
 
 
 def run(ctx):
@@ -945,12 +1080,13 @@ def run(ctx):
     shits, ncases = search(ctx, quick)
     hits += shits
     # ---- 5. translator validation ---------------------------------------------------------------
+    #         and the implementation against the last good model (also when the translator rejected the source)
     dis = []
-    if tie_ok:
-        try:
-            dis = correspondence(ctx, quick)
-        except Exception as e:
-            dis = [('corr-crash', None, 'correspondence could not be evaluated: %s' % e)]
+    try:
+        dis, chits = correspondence(ctx, quick, tie_ok)
+        hits += chits
+    except Exception as e:
+        dis = [('corr-crash', None, 'correspondence could not be evaluated: %s' % e)]
     ctx.notes['disagreements'] = len(dis)
     ctx.notes['oracle_hits'] = len(hits)
     broken = (not tie_ok) or failed or dis or ident
@@ -992,7 +1128,7 @@ def run(ctx):
 def replay(ctx, obj):
     c = unhex(obj.get('input') or obj)
     c.pop('corpus', None)
-    hits = evaluate_case(c)
+    hits = corr_case_oracle(ctx, c) if c.get('kind') == 'corr' else evaluate_case(c)
     for h in hits:
         print('replay:', h)
     print('replay: %d oracle violations on this input' % len(hits))
